@@ -408,6 +408,14 @@ class NormalizeCurveZScoreLoop(_CurveLoop):
 
 @spec("NormalizeMeanToMid")
 class NormalizeMeanToMidSpec(CommandSpec):
+    def admissible(self, case):
+        # the mean-to-mid control points need values strictly below and above the (zero-filtered) mean
+        inp = case["inputs"]["InFieldName"]
+        vals = [v for v, m in zip(inp["data"], inp["mask"]) if not m]
+        if case["params"].get("IgnoreZeros"):
+            vals = [v for v in vals if v != 0]
+        return len(set(vals)) >= 2
+
     """Mask, shape, kind, dtype and frame clauses are proved; the value clause (which five control points are
     chosen) is not specified here - the result is whatever NormalizeCurve's contract yields for the control
     points the code computes (bounded check covers the values)."""
